@@ -188,7 +188,10 @@ def order_rule(f):
 
 
 def run(ck):
-    ck.decided('D1 inputs and outputs are restored: on every path to return the last set_inputs/set_outputs writes back the value saved before the first setter, each to its own setter',
+    ck.decided('D3 the column offset pw() recomputes (g.inputs().len() + g.outputs().len()) is the width of the identity block: the width is the length of the very vector installed with set_outputs, unmodified in between, inputs emptied, nothing changes them before pw() runs; pw() looks nodes up as index_map[col - n_outs] over all columns',
+               'D4 the matrix whose null space is taken has the block structure [[I_outs;0 | N],[I_2outs | 0]] (symbolic shapes, every vstack/hstack dimension-consistent)',
+               'D5 pw(): Z spiders and X spiders mark two different edge sets over all incident edges; both -> Y, X only -> Z, Z only -> X; every basis vector becomes one returned web; set_edge/edge share the (min,max) key',
+               'D1 inputs and outputs are restored: on every path to return the last set_inputs/set_outputs writes back the value saved before the first setter, each to its own setter',
                'D2 the node order handed to the block-matrix construction has the boundary vertices first whatever their ids (necessary for numbering independence: the [I|N] block and the no-output rows are positional)')
     ck.not_decided('validity of the returned webs at every spider', 'linear independence and completeness', 'numbering independence beyond the necessary condition D2')
     f = ck.fn(DW)
@@ -214,7 +217,384 @@ def run(ck):
                 am = [c for c in hir.calls(f['hir']) if c.get('k') == 'MethodCall' and c['name'] == 'adjacency_matrix']
                 used = bool(lid and am and any(hir.local(x) and hir.local(x)[1] == lid[0][1] for x in hir.nodes(am[0]) if x.get('k') == 'Path'))
     ck.ob('R-MATCH-order', DW + '/order-used-for-adjacency', used, ck.site(DW), 'the adjacency matrix is not built in the node order returned by ordered_nodes')
+    # D3: offset agreement between detection_webs and pw
+    fpw = ck.fn(PW)
+    for slot, ok, msg in offset_rule(f, fpw):
+        if ok is None:
+            ck.violation('R-DATAFLOW-offset', DW + '/' + slot, ck.site(DW), msg)
+        else:
+            ck.ob('R-DATAFLOW-offset', DW + '/' + slot, ok, ck.site(DW if not slot.startswith('pw/') else PW), msg)
+    # D4: block structure
+    ok, msg, sample = block_rule(f)
+    if ok is None:
+        ck.violation('R-SHAPE-blocks', DW + '/constraint-matrix', ck.site(DW), msg + ' (not-established-by-recognised-idiom)')
+    else:
+        ck.ob('R-SHAPE-blocks', DW + '/constraint-matrix', ok, ck.site(DW), msg, sample=sample)
+    # D5: tables of pw
+    for slot, ok, msg in web_tables(fpw):
+        ck.ob('R-TABLE-web', PW + '/' + slot, ok, ck.site(PW), msg)
+    ok, msg = collect_rule(f)
+    if ok is None:
+        ck.violation('R-PAIR-collect', DW + '/every-basis-vector', ck.site(DW), msg)
+    else:
+        ck.ob('R-PAIR-collect', DW + '/every-basis-vector', ok, ck.site(DW), msg)
+    # key normalisation of PauliWeb: set_edge and edge use the same (min, max) key
+    keys = {}
+    for m in ('set_edge', 'edge'):
+        fm = ck.fn('detection_webs::PauliWeb::' + m)
+        tups = [t for t in hir.find(fm['hir'], 'Tup') if len(t['items']) == 2]
+        keys[m] = sorted(hir.strip(x)['name'] for t in tups for x in t['items'] if hir.strip(x).get('k') == 'MethodCall' and hir.strip(x)['name'] in ('min', 'max'))
+    ck.ob('R-SIB-key', 'PauliWeb/set_edge~edge', keys['set_edge'] == ['max', 'min'] and keys['edge'] == ['max', 'min'], ck.site('detection_webs::PauliWeb::set_edge'),
+          'set_edge and edge must both key the map by (min(from,to), max(from,to)); found %s' % keys)
     # positive controls
     fx = fixture()
+    ck.control('R-DATAFLOW-offset flags a width taken before the outputs are deduplicated', any(ok is False for _s, ok, _m in offset_rule(fx['fns'][DW], fx['fns'][PW])))
+    ck.control('R-SHAPE-blocks flags a no-output block of the wrong size', block_rule(fx['fns'][DW])[0] is False)
+    ck.control('R-TABLE-web flags swapped Pauli letters', any(ok is False for _s, ok, _m in web_tables(fx['fns'][PW])))
     ck.control('R-PAIR-restore flags swapped restores', any(not r[0] for r in restore_rule(fx['fns'][DW])))
     ck.control('R-MATCH-order flags an id-sorted first block', order_rule(fx['fns'][ON])[0] is False)
+
+
+# ---------------------------------------------------------------- D3: the column offset used by pw() is the width of the left block
+
+PW = 'detection_webs::pw'
+
+
+def _top_lets(f):
+    """local id -> (index of the top-level statement, init expr) for plain `let x = init;` at the top level of the body"""
+    out = {}
+    for i, s in enumerate(hir.stmts_of(f['hir'])):
+        if s.get('k') == 'Let' and s.get('init') is not None:
+            for nm, lid in hir.bindings(s['pat']):
+                out[lid] = (i, s['init'], nm)
+    return out
+
+
+def _mutates_local(stmt, lid):
+    """does the statement mutate (or move out of / re-borrow mutably) the local?"""
+    for kind, pl, node in hir.mutations(stmt):
+        p = hir.place(pl) if pl is not None else None
+        if p and p[0] == lid:
+            return True
+        if p is None and pl is not None:
+            for x in hir.nodes(pl):
+                l = hir.local(x) if x.get('k') == 'Path' else None
+                if l and l[1] == lid and x.get('mutborrow'):
+                    return True
+    for n in hir.nodes(stmt):
+        if n.get('k') == 'MethodCall' and hir.local(n['recv']) and hir.local(n['recv'])[1] == lid and (n['recv'].get('mutborrow') or hir.strip(n['recv']).get('mutborrow')):
+            return True
+    return False
+
+
+def offset_rule(f, fpw):
+    """[(slot, ok, msg)]"""
+    res = []
+    gid = f['params'][0]['id']
+    lets = _top_lets(f)
+    st = hir.stmts_of(f['hir'])
+    # the vector installed as outputs, and the first setter pair
+    so = si = None
+    for i, s in enumerate(st):
+        s0 = hir.strip(s)
+        if s0.get('k') == 'MethodCall' and hir.local(s0['recv']) and hir.local(s0['recv'])[1] == gid:
+            if s0['name'] == 'set_outputs' and so is None:
+                so = (i, s0)
+            if s0['name'] == 'set_inputs' and si is None:
+                si = (i, s0)
+    if so is None or si is None:
+        return [('shape', None, 'detection_webs no longer installs its own inputs/outputs with set_inputs/set_outputs at the top level (not-established-by-recognised-idiom)')]
+    xo = hir.local(so[1]['args'][0])
+    # left-block width symbol: the local used as BitMatrix::identity(<w>) whose init is <X>.len()
+    width = None
+    for lid, (i, init, nm) in lets.items():
+        i0 = hir.strip(init)
+        if i0.get('k') == 'MethodCall' and i0['name'] == 'len' and not i0['args'] and hir.local(i0['recv']):
+            used = [c for c in hir.calls(f['hir']) if (hir.callee(c) or '').endswith('BitMatrix::identity') and hir.local(c['args'][0]) and hir.local(c['args'][0])[1] == lid]
+            if used:
+                width = (lid, i, hir.local(i0['recv']), nm)
+    if width is None:
+        return [('width', None, 'the width of the identity block is no longer `let outs = <vec>.len()` (not-established-by-recognised-idiom)')]
+    wl, wi, wsrc, wname = width
+    ok = bool(xo) and wsrc[1] == xo[1]
+    res.append(('width-is-installed-outputs', ok, 'the identity block is `%s` = `%s.len()` wide, but the vector installed with set_outputs is `%s`: pw() derives its column offset from g.outputs().len(), so every firing column is mapped to the wrong spider'
+                % (wname, wsrc[0], xo[0] if xo else hir.pp(so[1]['args'][0])[:30])))
+    if ok:
+        mid = [s for s in st[wi + 1:so[0]] if _mutates_local(s, xo[1])]
+        res.append(('outputs-unchanged-between', not mid, 'the outputs vector is modified between `%s = %s.len()` and `set_outputs(%s)` (%s): the block width and the offset pw() recomputes from g.outputs().len() disagree'
+                    % (wname, wsrc[0], xo[0], hir.pp(mid[0])[:50] if mid else '')))
+        before = wi < so[0]
+        late = [s for s in st[so[0] + 1:] if _mutates_local(s, xo[1])] if not before else []
+        res.append(('width-read-before-move', before or not late, 'the width is read after the vector was handed to set_outputs'))
+    a = hir.strip(si[1]['args'][0])
+    empty = hir.vec_literal(a) == [] or (a.get('k') == 'Call' and (hir.callee(a) or '').endswith(('Vec::<T>::new', '::new')) and not a['args'])
+    res.append(('inputs-emptied', empty, 'set_inputs must install the empty list (every boundary counts as an output here): pw() adds g.inputs().len() to its column offset'))
+    # no other setter / inputs_mut / outputs_mut between the installation and the last pw() call
+    pwcalls = [c for c in hir.calls(f['hir']) if hir.callee(c) == PW]
+    if not pwcalls:
+        res.append(('pw-called', None, 'pw() is no longer called from detection_webs (anchor-missing)'))
+        return res
+    last_pw = max(i for i, s in enumerate(st) if any(x is c for c in pwcalls for x in hir.nodes(s)))
+    first = max(so[0], si[0])
+    clobber = []
+    for s in st[first + 1:last_pw + 1]:
+        for c in hir.calls(s):
+            if c.get('k') == 'MethodCall' and c['name'] in ('set_inputs', 'set_outputs', 'inputs_mut', 'outputs_mut', 'plug_output', 'plug_input', 'plug_inputs', 'plug_outputs') and hir.local(c['recv']) and hir.local(c['recv'])[1] == gid:
+                clobber.append(c)
+    res.append(('io-stable-until-pw', not clobber, 'inputs/outputs are changed again (%s) before pw() reads their lengths' % (hir.pp(clobber[0])[:40] if clobber else '')))
+    # pw side: n_outs = inputs.len + outputs.len, and the node of column col is index_map[col - n_outs]
+    g2 = [p for p in fpw['params'] if p.get('k') == 'Bind' and 'Graph' in (p.get('ty') or '')]
+    nl = None
+    for n in hir.nodes(fpw['hir']):
+        if n.get('k') == 'Let' and n.get('init') is not None and n['pat'].get('k') == 'Bind':
+            i0 = hir.strip(n['init'])
+            if i0.get('k') == 'Binary' and i0['op'] == 'Add':
+                parts = sorted(_len_of_io(x) or '?' for x in (i0['l'], i0['r']))
+                if parts == ['inputs', 'outputs']:
+                    nl = n['pat']['id']
+            elif _len_of_io(i0) == 'outputs':
+                nl = n['pat']['id']      # equivalent here: detection_webs empties the inputs before pw() runs (clause inputs-emptied)
+    res.append(('pw/offset-is-io-count', nl is not None, 'pw() no longer computes its column offset from the number of installed outputs (g.inputs().len() + g.outputs().len())'))
+    if nl is not None:
+        gets = [c for c in hir.calls(fpw['hir']) if c.get('k') == 'MethodCall' and c['name'] in ('get', 'get_mut') and hir.local_name(c['recv']) == fpw['params'][0].get('name')]
+        idx = [n for n in hir.nodes(fpw['hir']) if n.get('k') == 'Index' and hir.local_name(n['e']) == fpw['params'][0].get('name')]
+        look = [hir.strip(c['args'][0]) for c in gets] + [hir.strip(n['i']) for n in idx]
+        good = [e for e in look if e.get('k') == 'Binary' and e['op'] == 'Sub' and hir.local(e['r']) and hir.local(e['r'])[1] == nl and hir.local(e['l'])]
+        res.append(('pw/lookup-col-minus-offset', bool(look) and len(good) == len(look), 'pw() must translate a firing column with index_map[col - n_outs]; found %s' % ([hir.pp(e)[:30] for e in look] or 'no lookup')))
+        # col ranges over the columns of the firing vector and only set bits are used
+        ok = False
+        for n in hir.nodes(fpw['hir']):
+            if n.get('k') == 'For' and good and hir.bindings(n['pat']) and hir.bindings(n['pat'])[0][1] == hir.local(good[0]['l'])[1]:
+                rb = hir.range_bounds(n['iter'])
+                if rb and hir.lit_int(hir.strip(rb[0])) == 0 and rb[1] is not None and hir.strip(rb[1]).get('k') == 'MethodCall' and hir.strip(rb[1])['name'] == 'cols' and not rb[2]:
+                    ok = True
+        if good:
+            res.append(('pw/all-columns', ok, 'pw() must visit every column `0..v.cols()` of the firing vector'))
+    return res
+
+
+def _len_of_io(e):
+    e = hir.strip(e)
+    if e.get('k') == 'MethodCall' and e['name'] == 'len':
+        r = hir.strip(e['recv'])
+        if r.get('k') == 'MethodCall' and r['name'] in ('inputs', 'outputs'):
+            return r['name']
+    return None
+
+
+# ---------------------------------------------------------------- D4: block structure of the constraint matrix
+
+def _lf_add(a, b, s=1):
+    out = dict(a)
+    for k, v in b.items():
+        out[k] = out.get(k, 0) + s * v
+    return {k: v for k, v in out.items() if v}
+
+
+def _lf_txt(a):
+    return ' + '.join('%s%s' % ('' if v == 1 or k == '1' else '%d*' % v, k if k != '1' else str(v)) for k, v in sorted(a.items())) or '0'
+
+
+class _Blocks(Exception):
+    pass
+
+
+class _Mismatch(_Blocks):
+    pass
+
+
+def block_matrix(f):
+    """normal form of the matrix whose nullspace is taken: (rows, cols, {(kind, row-offset, col-offset, size)}) in linear forms over outs / n.
+    kinds: I (identity of given size) and N (the adjacency matrix); zero blocks are implicit."""
+    lets = _top_lets(f)
+    width = None
+
+    def key(lf):
+        return tuple(sorted(lf.items()))
+
+    def resolve(e):
+        e = hir.strip(e)
+        l = hir.local(e)
+        if l and l[1] in lets:
+            return resolve(lets[l[1]][1]) if not _is_dim_symbol(l[1]) else e
+        return e
+
+    dimsym = {}
+
+    def _is_dim_symbol(lid):
+        i0 = hir.strip(lets[lid][1])
+        if i0.get('k') == 'MethodCall' and i0['name'] == 'len' and hir.local(i0['recv']):
+            dimsym[lid] = lets[lid][2]
+            return True
+        return False
+
+    def lin(e):
+        e = hir.strip(e)
+        v = hir.lit_int(e)
+        if v is not None:
+            return {'1': v} if v else {}
+        l = hir.local(e)
+        if l and l[1] in lets:
+            if _is_dim_symbol(l[1]):
+                return {lets[l[1]][2]: 1}
+            return lin(lets[l[1]][1])
+        if e.get('k') == 'Binary' and e['op'] in ('Add', 'Sub'):
+            return _lf_add(lin(e['l']), lin(e['r']), 1 if e['op'] == 'Add' else -1)
+        if e.get('k') == 'Binary' and e['op'] == 'Mul':
+            a, b = lin(e['l']), lin(e['r'])
+            for x, y in ((a, b), (b, a)):
+                if set(x) <= {'1'}:
+                    c = x.get('1', 0)
+                    return {k: v * c for k, v in y.items() if v * c}
+            raise _Blocks('non-linear dimension')
+        if e.get('k') == 'MethodCall' and e['name'] in ('rows', 'cols') and not e['args']:
+            r, c, _b = mat(e['recv'])
+            return r if e['name'] == 'rows' else c
+        raise _Blocks('dimension `%s` is not a linear form in outs / n' % hir.pp(e)[:30])
+
+    def mat(e):
+        e = resolve(e)
+        k = e.get('k')
+        c = hir.callee(e) or ''
+        if k == 'Call' and c.endswith('BitMatrix::identity'):
+            n = lin(e['args'][0])
+            return n, n, [('I', {}, {}, n)]
+        if k == 'Call' and c.endswith('BitMatrix::zeros'):
+            return lin(e['args'][0]), lin(e['args'][1]), []
+        if k == 'MethodCall' and e['name'] == 'adjacency_matrix':
+            return {'n': 1}, {'n': 1}, [('N', {}, {}, {'n': 1})]
+        if k == 'MethodCall' and e['name'] in ('vstack', 'hstack') and len(e['args']) == 1:
+            r1, c1, b1 = mat(e['recv'])
+            r2, c2, b2 = mat(e['args'][0])
+            if e['name'] == 'vstack':
+                if key(c1) != key(c2):
+                    raise _Mismatch('vstack of blocks with %s and %s columns' % (_lf_txt(c1), _lf_txt(c2)))
+                return _lf_add(r1, r2), c1, b1 + [(kd, _lf_add(ro, r1), co, sz) for kd, ro, co, sz in b2]
+            if key(r1) != key(r2):
+                raise _Mismatch('hstack of blocks with %s and %s rows' % (_lf_txt(r1), _lf_txt(r2)))
+            return r1, _lf_add(c1, c2), b1 + [(kd, ro, _lf_add(co, c1), sz) for kd, ro, co, sz in b2]
+        if k == 'MethodCall' and e['name'] in ('clone', 'to_owned'):
+            return mat(e['recv'])
+        raise _Blocks('matrix expression `%s` is not built from identity / zeros / adjacency_matrix / vstack / hstack' % hir.pp(e)[:40])
+
+    ns = [c for c in hir.calls(f['hir']) if c.get('k') == 'MethodCall' and c['name'] == 'nullspace']
+    if len(ns) != 1:
+        raise _Blocks('expected exactly one nullspace() call, found %d' % len(ns))
+    r, c, bl = mat(ns[0]['recv'])
+    syms = sorted(set(dimsym.values()))
+    return r, c, sorted((kd, key(ro), key(co), key(sz)) for kd, ro, co, sz in bl), syms, ns[0]
+
+
+def block_rule(f):
+    try:
+        r, c, bl, syms, nsnode = block_matrix(f)
+    except _Mismatch as ex:
+        return False, 'the constraint matrix is assembled from blocks whose dimensions do not fit: %s' % ex, None
+    except _Blocks as ex:
+        return None, str(ex), None
+    if len(syms) != 1:
+        return None, 'expected one width symbol (outs), found %s' % syms, None
+    o = syms[0]
+
+    def key(lf):
+        return tuple(sorted(lf.items()))
+    want = sorted([('I', key({}), key({}), key({o: 1})),                 # [ I_outs | N ]   rows 0..n
+                   ('N', key({}), key({o: 1}), key({'n': 1})),          # [ 0      |   ]
+                   ('I', key({'n': 1}), key({}), key({o: 2}))])         # [ I_2outs | 0 ]  rows n..n+2 outs
+    ok = bl == want and key(r) == key({'n': 1, o: 2}) and key(c) == key({'n': 1, o: 1})
+    got = '%s x %s with blocks %s' % (_lf_txt(r), _lf_txt(c), ['%s(%s)@(%s,%s)' % (kd, _lf_txt(dict(sz)), _lf_txt(dict(ro)), _lf_txt(dict(co))) for kd, ro, co, sz in bl])
+    return ok, ('the matrix whose null space is taken must be [[I_outs ; 0 | N], [I_2outs | 0]] ((n + 2 outs) x (n + outs)): boundary rows get an identity column each, '
+                'the last 2 outs rows forbid firing on boundary and boundary-adjacent positions; found %s' % got), {'matrix': got}
+
+
+# ---------------------------------------------------------------- D5: pw() colour and Pauli tables
+
+def web_tables(fpw):
+    """[(slot, ok, msg)]: Z spiders fire into one edge set, X spiders into the other; both -> Y, X-only -> Z, Z-only -> X"""
+    res = []
+    role = {}
+    pm = hir.parent_map(fpw['hir'])
+    for n in hir.nodes(fpw['hir']):
+        if n.get('k') == 'MethodCall' and n['name'] == 'insert' and hir.local(n['recv']):
+            for c in paths.dominating_conds(n, pm):
+                if c[0] == 'cond' and c[2]:
+                    e = hir.strip(c[1])
+                    if e.get('k') == 'Binary' and e['op'] == 'Eq':
+                        for x in (e['l'], e['r']):
+                            p = hir.def_path(hir.strip(x)) or ''
+                            if p in ('graph::VType::Z', 'graph::VType::X'):
+                                role.setdefault(p[-1], set()).add(hir.local(n['recv'])[1])
+    ok = set(role) == {'Z', 'X'} and all(len(v) == 1 for v in role.values()) and role['Z'] != role['X']
+    res.append(('colour-sets', ok, 'edges at a firing Z spider and at a firing X spider must be collected in two different sets (found %s)' % {k: len(v) for k, v in role.items()}))
+    if not ok:
+        return res
+    zs, xs = list(role['Z'])[0], list(role['X'])[0]
+    # incident-edge test
+    inc_ok = False
+    for n in hir.nodes(fpw['hir']):
+        if n.get('k') == 'Binary' and n['op'] == 'Or':
+            parts = []
+            for x in (n['l'], n['r']):
+                x = hir.strip(x)
+                if x.get('k') == 'Binary' and x['op'] == 'Eq':
+                    flds = [y['name'] for y in (hir.strip(x['l']), hir.strip(x['r'])) if y.get('k') == 'Field']
+                    parts += flds
+            if sorted(parts) == ['0', '1']:
+                inc_ok = True
+    res.append(('incident-edges', inc_ok, 'a firing spider must mark every edge it is an endpoint of (`node == edge.0 || node == edge.1`)'))
+    # Pauli table
+    table = {}
+    for n in hir.nodes(fpw['hir']):
+        if n.get('k') == 'MethodCall' and n['name'] == 'set_edge' and len(n['args']) == 3:
+            pauli = (hir.def_path(hir.strip(n['args'][2])) or '?').rsplit('::', 1)[-1]
+            mem = {zs: None, xs: None}
+            evar = None
+            for c in paths.dominating_conds(n, pm):
+                if c[0] == 'loop' and c[1].get('k') == 'For':
+                    it = hir.strip(c[1]['iter'])
+                    while it.get('k') == 'MethodCall' and it['name'] in ('iter', 'into_iter'):
+                        it = hir.strip(it['recv'])
+                    l = hir.local(it)
+                    if l and l[1] in mem and evar is None:
+                        mem[l[1]] = True
+                        evar = hir.bindings(c[1]['pat'])[0][1] if hir.bindings(c[1]['pat']) else None
+            for c in paths.dominating_conds(n, pm):
+                if c[0] == 'cond':
+                    e = hir.strip(c[1])
+                    if e.get('k') == 'MethodCall' and e['name'] == 'contains' and hir.local(e['recv']) and hir.local(e['recv'])[1] in mem:
+                        a = hir.local(hir.strip(e['args'][0]))
+                        if a and a[1] == evar:
+                            mem[hir.local(e['recv'])[1]] = bool(c[2])
+            table.setdefault((mem[zs], mem[xs]), set()).add(pauli)
+    want = {(True, True): {'Y'}, (False, True): {'Z'}, (True, False): {'X'}}
+    res.append(('pauli-table', table == want, 'edge operators must be: marked by Z and X spiders -> Y, by X spiders only -> Z, by Z spiders only -> X; found %s (key = (in Z-set, in X-set), None = not tested)' % {k: sorted(v) for k, v in table.items()}))
+    return res
+
+
+def collect_rule(f):
+    """every null-space basis vector is turned into a web with the same index map and graph, and all webs are returned"""
+    ns = [c for c in hir.calls(f['hir']) if c.get('k') == 'MethodCall' and c['name'] == 'nullspace']
+    if len(ns) != 1:
+        return None, 'anchor-missing: nullspace()'
+    lets = _top_lets(f)
+    nsl = [lid for lid, (i, init, nm) in lets.items() if hir.strip(init) is ns[0]]
+    st = hir.stmts_of(f['hir'])
+    tail = hir.local(st[-1]) if st else None
+    for n in hir.nodes(f['hir']):
+        if n.get('k') == 'For':
+            it = hir.strip(n['iter'])
+            while it.get('k') == 'MethodCall' and it['name'] in ('iter', 'into_iter'):
+                it = hir.strip(it['recv'])
+            l = hir.local(it)
+            if l and nsl and l[1] == nsl[0]:
+                pm = hir.parent_map(n['body'])
+                calls = [c for c in hir.calls(n['body']) if hir.callee(c) == PW]
+                pushes = [c for c in hir.calls(n['body']) if c.get('k') == 'MethodCall' and c['name'] == 'push' and tail and hir.local(c['recv']) and hir.local(c['recv'])[1] == tail[1]]
+                bv = hir.bindings(n['pat'])
+                conditional = any(x.get('k') in ('If', 'Match', 'Break', 'Continue', 'Ret') for x in hir.nodes(n['body']))
+                if len(calls) == 1 and len(pushes) == 1 and bv and not conditional:
+                    a = hir.local(hir.strip(calls[0]['args'][1]))
+                    if a and a[1] == bv[0][1]:
+                        return True, ''
+                return False, 'the loop over the null-space basis does not turn every vector into exactly one returned web'
+    return False, 'the null-space basis is not iterated (or the webs are not what is returned)'
